@@ -16,14 +16,15 @@ Clause map (property text → theorem):
 * "unchanged by translating or permuting the particles"
                                                     → `paircorr_perm_invariant`, `paircorr_translation_invariant`
 * "the edge correction equals the true length (2D) or area (3D) of the part of the circle or
-  sphere inside the bounding box"                   → NOT PROVED here.
-  -- FULL (not proved): cap_angles (for 0 ≤ h < r, {θ | r cos θ > h} is an interval of length
-  --   2·arccos(h/r)), corner_angles (for h₁²+h₂² < r², {θ | r cos θ > h₁ ∧ r sin θ > h₂} has
-  --   length arccos(h₂/r) − arcsin(h₁/r)), opposite_disjoint, arclen_inclusion_exclusion
-  --   (arclen_2d_bounded = r·|{θ | centre + r(cos θ, sin θ) ∈ box}|), and the 3-D analogue.
-  --   The pair-correlation theorems therefore take the correction as an abstract `arc`; the code's
-  --   arclen_2d_bounded/area_3d_bounded are tied to the geometric definition by the correspondence
-  --   only (angle-interval arithmetic / quadrature), see obligations/C19.json "partial".
+  sphere inside the bounding box"
+  2-D → Props/C19Arc.lean: `cap_angles`, `corner_angles`, `opposite_disjoint`,
+        `arclen_inclusion_exclusion`, `model_arclen_exact` (Mathlib real trigonometry; centre in
+        the closed box, every radius).
+  3-D → NOT PROVED.
+  -- FULL (not proved): area_3d_bounded = area of the part of the sphere inside the box.
+  --   The pair-correlation theorems below take the correction as an abstract `arc`; the code's
+  --   area_3d_bounded is tied to the geometric definition by the correspondence only
+  --   (slice quadrature), see obligations/C19.json "partial".
 
 All statements are about the definitions of `Model/Static.lean` that the native driver executes.
 The order in which `from_pairs` receives the pairs is the iteration order of a Python `set`; the
